@@ -248,6 +248,20 @@ theorem node_respects_context (w r : Option Bytes) (deep : Bool) (k : NodeKind) 
 
 example : createFromCap (some (filePrefix .lit ++ [109, 121])) none true = .known .literal (.file (.lit [0x66])) := by decide
 
+/-- The node cache is memoryless in the verdict: for every history of `create_from_cap` calls on one
+NodeMaker (interleaved with the garbage collector dropping any weakly referenced cache entries), each
+call returns exactly the node (kind, cap, flags, or UnknownNode with its error) that the same call
+returns on a fresh NodeMaker.  So `node_respects_context` holds whatever was created before. -/
+theorem cache_is_memoryless (ops : List NmOp) : runHistory [] ops = runCold ops :=
+  runHistory_eq_cold [] (fun _ h => by cases h) ops
+
+/-- concrete instance: bare write cap first (cached, mutable), then the same cap with `ro.` — still refused -/
+example :
+    let ssk := filePrefix .ssk ++ List.replicate 26 97 ++ [58] ++ List.replicate 52 97
+    runHistory [] [.call (some ssk) none false, .call (some (roPrefix ++ ssk)) none false] =
+      [.known .mutableFile (.file (.ssk (List.replicate 16 0) (List.replicate 32 0))),
+       .unknown { error := some .mustBeReadonly, rw := none, ro := none }] := by decide
+
 /-! ### unknown caps keep or strengthen their prefix -/
 
 /-- `UnknownNode(given_rw_uri, given_ro_uri, deep_immutable)`: a node with an error is opaque; the
